@@ -30,6 +30,19 @@ pub fn load_corpus() -> Corpus {
 }
 
 pub const SNIPPETS: &[&str] = &[
+    "P1 { T } ::= SEQUENCE { v T, next P1 { T } OPTIONAL }",
+    "X1 ::= P1 { INTEGER }",
+    "P2 { INTEGER: n } ::= SEQUENCE { v INTEGER (0..n), sub SEQUENCE OF P2 { n } }",
+    "X2 ::= P2 { 5 }",
+    "S5 C1 ::= { S2 }",
+    "U6 ::= SEQUENCE { id C1.&id ({S5}), val C1.&Type ({S5}{@id}) }",
+    "F1 ::= IA5String (FROM (\"\"..\"z\"))",
+    "F2 ::= IA5String (FROM (\"a\"..\"\"))",
+    "F3 ::= PrintableString (FROM (\"\"))",
+    "C2 ::= CLASS { &Type-Field, &id INTEGER UNIQUE } WITH SYNTAX { &Type-Field ID &id }",
+    "o3 C2 ::= { INTEGER ID 1 }",
+    "S6 C2 ::= { o3 }",
+    "U7 ::= SEQUENCE { id C2.&id ({S6}), v C2.&Type-Field ({S6}{@id}) }",
     "T1 ::= TIME",
     "T2 ::= REAL",
     "T3 ::= DATE",
@@ -434,11 +447,19 @@ pub fn gen_case(seed: u64, idx: u64, corpus: &Corpus, prefixes: &[(usize, usize)
 fn exercise(input: &str) -> (String, usize) {
     let mut summary = String::new();
     let mut rendered = 0usize;
-    for backend in 0..2 {
+    // information object classes take other generator paths when open types are not opaque and From impls are requested
+    let n_backends = if input.contains("CLASS") || input.contains("CHOICE") { 3 } else { 2 };
+    for backend in 0..n_backends {
         let r = if backend == 0 {
             Compiler::<RasnBackend, _>::new().add_asn_literal(input).compile_to_string()
-        } else {
+        } else if backend == 1 {
             Compiler::<TypescriptBackend, _>::new().add_asn_literal(input).compile_to_string()
+        } else {
+            let mut c = RasnConfig::default();
+            c.opaque_open_types = false;
+            c.generate_from_impls = true;
+            c.no_std_compliant_bindings = true;
+            Compiler::<RasnBackend, _>::new_with_config(c).add_asn_literal(input).compile_to_string()
         };
         match r {
             Ok(res) => {
